@@ -22,4 +22,11 @@ theorem handshake_frag_independent_this_tree (sizes : List Nat) (frs frs' : List
     readFields (sizes.map fun k => (k, Mode.full)) frs = readFields (sizes.map fun k => (k, Mode.full)) frs' :=
   Lnc.Props.C16.readFields_frag_independent _ (by simp [Lnc.Props.C16.allFull]) frs frs' h
 
+/-- WriteMessage refuses a new record while any part of the previous one is
+    unflushed: header bytes *or* body bytes pending (the model's `write_while_pending`) -/
+theorem pending_guard :
+    skel_Machine_WriteMessage.contains "cond:len(b.nextHeaderSend) > 0 || len(b.nextBodySend) > 0" = true ∧
+    skel_Machine_WriteMessage.idxOf "cond:len(b.nextHeaderSend) > 0 || len(b.nextBodySend) > 0" <
+      skel_Machine_WriteMessage.idxOf "assign:b.nextHeaderSend" := by decide
+
 end Lnc.Inst.C16
